@@ -24,6 +24,9 @@ class make_network_nack(Contract):
         interest = run.input_buf('encoded_interest', 'bytes')
         return dict(encoded_interest=interest, nack_reason=r)
 
+    def build(self, i):
+        return (bytes.fromhex(i['encoded_interest']['hex']), i['nack_reason']), {}
+
     def pre(c, cx, encoded_interest, nack_reason):
         return And(zint(nack_reason) >= 0, zint(nack_reason) < 2 ** 64, zint(encoded_interest.length) < 2 ** 16)
 
